@@ -90,8 +90,9 @@ class Scheduler:
     # ---- identity
     def me(self) -> TState | None:
         ident = _rt.get_ident()
+        # the OS re-uses the ident of a finished thread for a later one: never match a finished TState
         for t in self.threads:
-            if t.real is not None and t.real.ident == ident:
+            if t.real is not None and not t.done and t.real.ident == ident:
                 return t
         return None
 
